@@ -397,6 +397,55 @@ pub fn scenario(r: &mut Report, p: &Params) {
     }
 }
 
+/// Larger networks (50..300 nodes): Kademlia completeness is probabilistic, so the success rate of
+/// write/read pairs is compared with a floor far below the loss-free baseline.
+pub fn large_scenario(r: &mut Report, seed: u64, servers: usize, pairs: usize) {
+    r.eval();
+    let mut rng = Rng::new(seed);
+    let w = World::with_cfg(seed, NetCfg::default(), TraceLevel::Off);
+    let case = json!({"class":"large-network","seed":seed.to_string(),"servers":servers,"pairs":pairs});
+    let net = build_net(&w, servers, servers / 10, PLANS[rng.usize(4)], true, &mut rng);
+    let n = net.nodes.len();
+    let mut ok = 0usize;
+    let mut failed: Vec<Value> = vec![];
+    let mut attempted = 0usize;
+    for i in 0..pairs {
+        let wi = rng.usize(n);
+        let mut ri = rng.usize(n);
+        if ri == wi {
+            ri = (ri + 1) % n;
+        }
+        let kind = i % 4;
+        let Ok(wr) = write(&w, &net, wi, kind, &mut rng) else {
+            r.count("large/puts_not_ok");
+            continue;
+        };
+        attempted += 1;
+        match read(&w, &net, ri, &wr) {
+            Ok(true) => ok += 1,
+            other => failed.push(json!({"pair": i, "kind": kind, "writer": net.nodes[wi].addr.to_string(), "reader": net.nodes[ri].addr.to_string(), "result": format!("{other:?}"), "ackers": wr.ackers.len()})),
+        }
+    }
+    let rate = if attempted == 0 { 0.0 } else { ok as f64 / attempted as f64 };
+    r.add("large/pairs_attempted", attempted as u64);
+    r.add("large/pairs_found", ok as u64);
+    r.notes.insert(format!("large_network_{servers}_success_rate"), json!(format!("{ok}/{attempted} = {rate:.3} (floor 0.90)")));
+    if attempted >= 10 && rate < 0.90 {
+        r.violation(&format!("large-network/success-rate-below-floor/{servers}"), &format!("put-then-get success rate {rate:.3} in a {servers}-server network is below the floor 0.90"), case.clone(), json!({"failed_pairs": failed.iter().take(20).collect::<Vec<_>>() }));
+    }
+    if attempted > 0 {
+        r.nontrivial(mix(seed, servers as u64));
+    }
+    r.count("large_networks");
+    if w.stuck() {
+        r.inconclusive("scheduler watchdog fired");
+    }
+    drop(net);
+    for (thread, loc, msg) in crate::take_panics() {
+        r.violation(&format!("panic/{loc}"), &format!("thread {thread} panicked: {msg}"), case.clone(), json!({}));
+    }
+}
+
 fn gen_params(rng: &mut Rng, quick: bool) -> Params {
     let servers = *rng.pick(&[1usize, 2, 3, 4, 5, 6, 8, 10, 12, 16, 20]);
     let clients = *rng.pick(&[0usize, 0, 1, 2, 5, 10, if quick { 12 } else { 30 }]);
@@ -408,6 +457,10 @@ pub fn run(a: &Args) -> Report {
     if let Some(path) = &a.replay {
         let v: Value = serde_json::from_str(&std::fs::read_to_string(path).unwrap_or_default()).unwrap_or_default();
         let c = &v["case"];
+        if c["class"] == "large-network" {
+            large_scenario(&mut r, c["seed"].as_str().and_then(|s| s.parse().ok()).unwrap_or(1), c["servers"].as_u64().unwrap_or(50) as usize, c["pairs"].as_u64().unwrap_or(40) as usize);
+            return r;
+        }
         let p = Params {
             seed: c["seed"].as_str().and_then(|s| s.parse().ok()).unwrap_or(1),
             servers: c["servers"].as_u64().unwrap_or(3) as usize,
@@ -420,6 +473,14 @@ pub fn run(a: &Args) -> Report {
         };
         scenario(&mut r, &p);
         return r;
+    }
+    // large networks: one 50-node world in the quick tier, 50/100/300 in the thorough tier
+    let large: Vec<(usize, usize)> = if a.quick() { vec![(50, 40)] } else { vec![(50, 200), (100, 200), (300, 200), (100, 200), (50, 200), (300, 200)] };
+    for (i, (servers, pairs)) in large.into_iter().enumerate() {
+        if i as u64 % a.nshards.max(1) == a.shard {
+            let s = mix(a.seed, 0x1a46e + i as u64);
+            super::guarded(&mut r, json!({"class":"large-network","seed":s.to_string(),"servers":servers,"pairs":pairs}), |r| large_scenario(r, s, servers, pairs));
+        }
     }
     let n = (if a.quick() { 1600 } else { 32000 }) / a.nshards.max(1);
     let mut rng = Rng::new(mix(a.seed, 0xc01 + a.shard));
